@@ -1960,6 +1960,12 @@ class QuicConnection:
 
         # assign new CID if we retired the active one
         if change_cid:
+            if not self._peer_cid_available:
+                raise QuicConnectionError(
+                    error_code=QuicErrorCode.PROTOCOL_VIOLATION,
+                    frame_type=frame_type,
+                    reason_phrase="No connection ID left after Retire Prior To",
+                )
             self._consume_peer_cid()
 
         # check number of active connection IDs, including the selected one
